@@ -10,6 +10,10 @@ import Sonic.Model.Ftoa
 import Sonic.Model.Number
 import Sonic.Model.OnDemand
 import Sonic.Model.Parse
+import Sonic.Model.Serialize
+import Sonic.Model.Schema
+import Sonic.Model.Lazy
+import Sonic.Model.Dom
 
 /-!
 # Line-protocol driver (`sonic_model`)
@@ -101,6 +105,11 @@ def stepLocal (toks : List String) : String :=
 /-- state of the stateful sub-protocols (pool, dom, …); `W` = vector width of the build being mirrored -/
 structure DState where
   W : Nat := 32
+  dom : Sonic.Model.Dom.Session := Sonic.Model.Dom.Session.init
+
+def domEnv (W : Nat) : Sonic.Model.Dom.Env where
+  parse := fun bs => match Sonic.Spec.Json.parse bs with | .ok v => some v | .error _ => none
+  dump := fun v cap0 nreuse => Sonic.Model.Serialize.dumpVal W v cap0 nreuse
 
 def step (st : DState) (line : String) : DState × String :=
   let toks := (line.trimAscii.toString.splitOn " ").filter (· ≠ "")
@@ -119,6 +128,9 @@ def step (st : DState) (line : String) : DState × String :=
         | _, _ => ""
       | _, _ => ""
     (st, o ++ extra)
+  | "schema" :: _ => (st, Sonic.Model.Schema.runLine toks)
+  | "lazy" :: _ => (st, Sonic.Model.Lazy.runLine st.W toks)
+  | "ser" :: _ => (st, Sonic.Model.Serialize.runLine st.W toks)
   | "pod" :: _ => (st, Sonic.Model.OnDemand.runLine st.W toks)
   | "parse" :: _ | "parse-seq" :: _ => (st, Sonic.Model.Parse.runLine st.W toks)
   | ["slice-spec", hx, a, b] =>
@@ -128,6 +140,11 @@ def step (st : DState) (line : String) : DState × String :=
   | "f64toa" :: _ => (st, Sonic.Model.Ftoa.runLine toks)
   | "memcmp" :: _ => (st, Sonic.Model.Memcmp.runLine toks)
   | "parsestr" :: _ => (st, Sonic.Model.StringDec.runLine st.W toks)
+  | c :: _ =>
+    if c.startsWith "dom-" then
+      let (d', o) := Sonic.Model.Dom.runLine (domEnv st.W) st.dom toks
+      ({ st with dom := d' }, o)
+    else (st, stepLocal toks)
   | _ => (st, stepLocal toks)
 
 partial def loop (h : IO.FS.Stream) (out : IO.FS.Stream) (st : DState) : IO Unit := do
